@@ -538,10 +538,13 @@ func (s *Statement) ConvertAllAllocatedToPipelined(jobID common_info.PodGroupID)
 		allocateOp := op.(allocateOperation)
 
 		nodeName := currentTaskInOperations.NodeName
+		gpuGroups := currentTaskInOperations.GPUGroups
 		err := s.unallocate(currentTaskInOperations, allocateOp.nextNode, true)
 		if err != nil {
 			return err
 		}
+		// the task is nominated to the devices it was allocated on
+		currentTaskInOperations.GPUGroups = gpuGroups
 
 		err = s.Pipeline(currentTaskInOperations, nodeName, true)
 		if err != nil {
